@@ -376,6 +376,97 @@ func c07Blocks(r *core.Run, p *core.Program) {
 		evCall("write the queued blocks", "(*lib/chain.BlockDB).writeOne", -1),
 		fileEv("sync the index file", "(*os.File).Sync", "blockindx"),
 	})
+	blockdbFlushDrains(r, p, rule)
+	lb := p.Func("lib/chain.(*BlockDB).LoadBlockIndex")
+	if lb != nil {
+		// a short read leaves the loop
+		okShort := false
+		for _, b := range lb.Blocks {
+			if iff, ok := b.Instrs[len(b.Instrs)-1].(*ssa.If); ok {
+				if m, _ := matchNil(false, "call:io.ReadFull#1")(iff); m {
+					okShort = true
+				}
+			}
+		}
+		okSI, okSD := false, false
+		for _, c := range an.CallsTo(lb, false, "(*os.File).Seek") {
+			args := c.Common().Args
+			wh, _ := an.ConstOf(args[2])
+			a0, a1 := an.Atoms(args[0]), an.Atoms(args[1])
+			if a0["field:lib/chain.BlockDB.blockindx"] && a1["field:lib/chain.BlockDB.maxidxfilepos"] && wh != nil && wh.Sign() == 0 {
+				okSI = true
+			}
+			if a0["field:lib/chain.BlockDB.blockdata"] {
+				okSD = a1["field:lib/chain.BlockDB.maxdatfilepos"] && wh != nil && wh.Sign() == 0
+			}
+		}
+		r.Check(okShort && okSI && okSD, rule, "load/truncated-tail", p.Pos(lb.Pos()), "loading stops at a short record and positions the index and the data file at the end derived from the complete records", "after a crash in the middle of an append the loader does not stop at the short record, or leaves a file positioned at its physical end (an unindexed tail would then shift every later block)")
+	}
+}
+
+func c07Order(r *core.Run, p *core.Program) {
+	const rule = "R-C07-order"
+	c19Order(r, p, rule, "idle", p.Func("lib/chain.(*Chain).Idle"), []c19Ev{evCall("flush the block store", "(*lib/chain.BlockDB).Idle", -1), evCall("maybe start a snapshot", "(*lib/utxo.UnspentDB).Idle", -1)})
+	c19Order(r, p, rule, "close", p.Func("lib/chain.(*Chain).Close"), []c19Ev{evCall("flush and close the block store", "(*lib/chain.BlockDB).Close", -1), evCall("save and close the UTXO set", "(*lib/utxo.UnspentDB).Close", -1)})
+	// who may start a snapshot
+	targets := []string{"lib/utxo.(*UnspentDB).Save", "lib/utxo.(*UnspentDB).Idle", "lib/utxo.(*UnspentDB).Close"}
+	flush := map[string]bool{"(*lib/chain.BlockDB).Idle": true, "(*lib/chain.BlockDB).Close": true, "(*lib/chain.BlockDB).writeAll": true, "(*lib/chain.Chain).Idle": true}
+	var bad []string
+	sites := 0
+	for _, tn := range targets {
+		target := p.Func(tn)
+		if target == nil {
+			bad = append(bad, tn+" not found")
+			continue
+		}
+		for _, f := range p.ModuleFuncs() {
+			fnn := core.FuncName(f)
+			if strings.HasPrefix(fnn, "(*lib/utxo.UnspentDB).") || strings.HasPrefix(fnn, "tools/") {
+				continue // the set's own entry points are checked at their callers
+			}
+			for _, c := range an.Calls(f, true) {
+				if an.StaticCallee(c) != target {
+					continue
+				}
+				sites++
+				// a flush of the block store must dominate the call
+				ok := false
+				for _, c2 := range an.Calls(f, false) {
+					if _, isCall := c2.(*ssa.Call); isCall && flush[an.CallName(c2)] {
+						i1, i2 := c2.(ssa.Instruction), c.(ssa.Instruction)
+						if i1.Block() == i2.Block() {
+							for _, x := range i1.Block().Instrs {
+								if x == i1 {
+									ok = true
+									break
+								}
+								if x == i2 {
+									break
+								}
+							}
+						} else if i1.Block().Dominates(i2.Block()) {
+							ok = true
+						}
+					}
+				}
+				if !ok {
+					bad = append(bad, fmt.Sprintf("%s calls %s at %s without flushing the block store first", fnn, strings.TrimPrefix(tn, "lib/utxo."), p.Pos(an.InstrPos(c.(ssa.Instruction)))))
+				}
+			}
+		}
+	}
+	sort.Strings(bad)
+	r.Check(len(bad) == 0 && sites >= 3, rule, "snapshot-callers", "-", fmt.Sprintf("%d callers of the snapshot entry points, each after a flush of the block store", sites), strings.Join(bad, "; "))
+}
+
+// blockdbFlushDrains (shared by C07 and C16): a flush of the block store writes every queued block.
+func blockdbFlushDrains(r *core.Run, p *core.Program, rule string) {
+	wo := p.Func("lib/chain.(*BlockDB).writeOne")
+	wa := p.Func("lib/chain.(*BlockDB).writeAll")
+	if wo == nil || wa == nil {
+		r.Fail(rule, "flush-drains-queue", "-", "writeOne / writeAll not found")
+		return
+	}
 	// a flush drains the queue: writeAll repeats writeOne until it reports "nothing done", and writeOne reports
 	// that only when the queue was empty (a queue entry that is discarded still counts as progress)
 	if wo != nil && wa != nil {
@@ -464,84 +555,4 @@ func c07Blocks(r *core.Run, p *core.Program) {
 		sort.Strings(bad)
 		r.Check(len(bad) == 0 && nret >= 2, rule, "flush-drains-queue", p.Pos(wo.Pos()), fmt.Sprintf("%d returns of writeOne: false only on the empty-queue branch; writeAll loops on true", nret), strings.Join(bad, "; "))
 	}
-	lb := p.Func("lib/chain.(*BlockDB).LoadBlockIndex")
-	if lb != nil {
-		// a short read leaves the loop
-		okShort := false
-		for _, b := range lb.Blocks {
-			if iff, ok := b.Instrs[len(b.Instrs)-1].(*ssa.If); ok {
-				if m, _ := matchNil(false, "call:io.ReadFull#1")(iff); m {
-					okShort = true
-				}
-			}
-		}
-		okSI, okSD := false, false
-		for _, c := range an.CallsTo(lb, false, "(*os.File).Seek") {
-			args := c.Common().Args
-			wh, _ := an.ConstOf(args[2])
-			a0, a1 := an.Atoms(args[0]), an.Atoms(args[1])
-			if a0["field:lib/chain.BlockDB.blockindx"] && a1["field:lib/chain.BlockDB.maxidxfilepos"] && wh != nil && wh.Sign() == 0 {
-				okSI = true
-			}
-			if a0["field:lib/chain.BlockDB.blockdata"] {
-				okSD = a1["field:lib/chain.BlockDB.maxdatfilepos"] && wh != nil && wh.Sign() == 0
-			}
-		}
-		r.Check(okShort && okSI && okSD, rule, "load/truncated-tail", p.Pos(lb.Pos()), "loading stops at a short record and positions the index and the data file at the end derived from the complete records", "after a crash in the middle of an append the loader does not stop at the short record, or leaves a file positioned at its physical end (an unindexed tail would then shift every later block)")
-	}
-}
-
-func c07Order(r *core.Run, p *core.Program) {
-	const rule = "R-C07-order"
-	c19Order(r, p, rule, "idle", p.Func("lib/chain.(*Chain).Idle"), []c19Ev{evCall("flush the block store", "(*lib/chain.BlockDB).Idle", -1), evCall("maybe start a snapshot", "(*lib/utxo.UnspentDB).Idle", -1)})
-	c19Order(r, p, rule, "close", p.Func("lib/chain.(*Chain).Close"), []c19Ev{evCall("flush and close the block store", "(*lib/chain.BlockDB).Close", -1), evCall("save and close the UTXO set", "(*lib/utxo.UnspentDB).Close", -1)})
-	// who may start a snapshot
-	targets := []string{"lib/utxo.(*UnspentDB).Save", "lib/utxo.(*UnspentDB).Idle", "lib/utxo.(*UnspentDB).Close"}
-	flush := map[string]bool{"(*lib/chain.BlockDB).Idle": true, "(*lib/chain.BlockDB).Close": true, "(*lib/chain.BlockDB).writeAll": true, "(*lib/chain.Chain).Idle": true}
-	var bad []string
-	sites := 0
-	for _, tn := range targets {
-		target := p.Func(tn)
-		if target == nil {
-			bad = append(bad, tn+" not found")
-			continue
-		}
-		for _, f := range p.ModuleFuncs() {
-			fnn := core.FuncName(f)
-			if strings.HasPrefix(fnn, "(*lib/utxo.UnspentDB).") || strings.HasPrefix(fnn, "tools/") {
-				continue // the set's own entry points are checked at their callers
-			}
-			for _, c := range an.Calls(f, true) {
-				if an.StaticCallee(c) != target {
-					continue
-				}
-				sites++
-				// a flush of the block store must dominate the call
-				ok := false
-				for _, c2 := range an.Calls(f, false) {
-					if _, isCall := c2.(*ssa.Call); isCall && flush[an.CallName(c2)] {
-						i1, i2 := c2.(ssa.Instruction), c.(ssa.Instruction)
-						if i1.Block() == i2.Block() {
-							for _, x := range i1.Block().Instrs {
-								if x == i1 {
-									ok = true
-									break
-								}
-								if x == i2 {
-									break
-								}
-							}
-						} else if i1.Block().Dominates(i2.Block()) {
-							ok = true
-						}
-					}
-				}
-				if !ok {
-					bad = append(bad, fmt.Sprintf("%s calls %s at %s without flushing the block store first", fnn, strings.TrimPrefix(tn, "lib/utxo."), p.Pos(an.InstrPos(c.(ssa.Instruction)))))
-				}
-			}
-		}
-	}
-	sort.Strings(bad)
-	r.Check(len(bad) == 0 && sites >= 3, rule, "snapshot-callers", "-", fmt.Sprintf("%d callers of the snapshot entry points, each after a flush of the block store", sites), strings.Join(bad, "; "))
 }
